@@ -85,6 +85,7 @@ class Scen:
         self.dir = os.path.join(root, "in")
         self.out = os.path.join(root, "out") if mode == "json-o" else self.dir
         self.stdout_file = os.path.join(root, "stdout.txt")
+        self.seen_paths = set()
 
     def fresh(self):
         for d in (self.dir, os.path.join(self.root, "out")):
@@ -111,8 +112,16 @@ class Scen:
         return a
 
     def outpath(self, P):
+        """<out dir>/<pel file>.<entry id>.json - the id's zero padding is the tool's business: take the name it used"""
         data, exp, pel = self.inputs[P]
-        return os.path.join(self.out, os.path.basename(P) + "." + ("%X" % pel.eid) + ".json")
+        if os.path.isdir(self.out):
+            for fn in os.listdir(self.out):
+                if dirs.is_json_name(fn, os.path.basename(P), pel.eid):
+                    return os.path.join(self.out, fn)
+        for fn in self.seen_paths:
+            if os.path.dirname(fn) == self.out and dirs.is_json_name(os.path.basename(fn), os.path.basename(P), pel.eid):
+                return fn
+        return os.path.join(self.out, os.path.basename(P) + "." + ("%02X" % pel.eid) + ".json")
 
     def open_stdout(self):
         """returns (stdout argument for subprocess, cleanup callable)"""
@@ -145,6 +154,7 @@ def complete(content: bytes, pel, newline=False):
 
 def check_run(ctx, sc, events, killed, proc, inject):
     """offline trace checker + post-state oracle for one execution"""
+    sc.seen_paths = {e.path for e in events if e.path and e.name in ("openat", "open", "creat")}
     label = "%s/%s/%s" % (sc.mode, sc.pelv, sc.sk or "-")
     for P, (data, exp, pel) in sc.inputs.items():
         unl = [e for e in events if e.name in ("unlink", "unlinkat") and e.path == P and e.ret == 0]
@@ -367,7 +377,8 @@ def run_twin(spec, ctx, rng, u):
     state = {"out": None}
 
     def fake_open(file, mode="r", *a, **k):
-        if "w" in mode and state["out"] is not None and os.path.abspath(file) == state["out"]:
+        if "w" in mode and state["out"] is not None and state["match"](os.path.abspath(file)):
+            state["out"] = os.path.abspath(file)
             plan_["op"] += 1
             log.append(("op", "open", plan_["op"]))
             if plan_["op"] == plan_["fail_at"]:
@@ -407,7 +418,7 @@ def run_twin(spec, ctx, rng, u):
         outdir = os.path.join(d, "out") if mode == "json-o" else d
         name = "p_%08X.pel" % pel.eid
         P = os.path.join(d, name)
-        outpath = os.path.join(outdir, name + "." + ("%X" % pel.eid) + ".json")
+        outpath = os.path.join(outdir, name + "." + ("%02X" % pel.eid) + ".json")      # twin ids are >= 0x10000000 (below)
         fail_at = 0
         nops = None
         while True:
@@ -417,7 +428,9 @@ def run_twin(spec, ctx, rng, u):
                 f.write(data)
             del log[:]
             plan_.update(op=0, fail_at=fail_at, failed=None)
-            state.update(out=os.path.abspath(outpath), armed=True)
+            state.update(out=os.path.abspath(outpath), armed=True,
+                         match=lambda f, od=os.path.abspath(outdir), nm=name, e=pel.eid:
+                         os.path.dirname(f) == od and dirs.is_json_name(os.path.basename(f), nm, e))
             argv = ["-f", P, "-c"] if mode == "file" else ["-p", d, "-j", "-c"] + (["-o", outdir] if mode == "json-o" else [])
             old = sys.argv, sys.stdout, sys.stderr
             so = FaultyStdout() if mode == "file" else io.StringIO()
@@ -449,7 +462,7 @@ def run_twin(spec, ctx, rng, u):
                     ctx.violation("C12/unlink-after-failed-" + ("write" if plan_["failed"] in ("write", "flush") else plan_["failed"]),
                                   "twin %s: os.remove(input) after the output failed at %s (operation %d)" %
                                   (label, plan_["failed"], fail_at))
-                elif mode != "file" and ("closed", os.path.abspath(outpath)) not in log[:r]:
+                elif mode != "file" and not any(e[0] == "closed" for e in log[:r]):
                     ctx.violation("C12/unlink-before-close", "twin %s: os.remove(input) before the output file was closed "
                                   "(operations so far: %s)" % (label, [e[1] for e in log[:r] if e[0] == "op"]))
             gone = not os.path.exists(P)
@@ -461,6 +474,7 @@ def run_twin(spec, ctx, rng, u):
                         ctx.violation("C12/input-gone-output-incomplete", "twin %s: input removed, %d of %d characters printed "
                                       "(failed operation %s)" % (label, len(so.getvalue()), len(exp) + 1, fail_at))
                 else:
+                    outpath = state["out"]
                     got = open(outpath).read() if os.path.exists(outpath) else None
                     if got != exp:
                         ctx.violation("C12/input-gone-output-incomplete", "twin %s: input removed, output %s (failed operation %s)" %
